@@ -163,9 +163,14 @@ func (t *Tap) on(ev Ev) error {
 		*t.Clock++
 	}
 	if t.Hook != nil {
-		if err := t.Hook(idx, &ev); err != nil {
+		// (a copy, so that ev itself does not escape to the heap when no hook
+		// is set: the tap must not allocate per event - it sits inside the
+		// allocation measurements of C03 and C14)
+		e2 := ev
+		if err := t.Hook(idx, &e2); err != nil {
 			return err
 		}
+		ev = e2
 	}
 	if t.Hash {
 		h := t.Sum ^ 14695981039346656037
